@@ -80,6 +80,45 @@ impl std::io::Write for CountSink {
 }
 "#;
 
+/// A hand-written type *declared* zero-copy (`CopyType::Copy = Zero`) that holds a pointer and honestly
+/// reports `IS_ZERO_COPY = false`: the run-time defence (`check_zero_copy`) is the only thing between it and
+/// the file. (Tuples and ranges of such a type are not probed: their implementations do not consult the
+/// element's `IS_ZERO_COPY` on the pinned tree either, and they are outside the property's family.)
+const HANDLE: &str = r#"
+#[derive(Clone, Copy, Debug)]
+pub struct Handle(pub &'static str);
+impl CopyType for Handle { type Copy = Zero; }
+impl MaxSizeOf for Handle { fn max_size_of() -> usize { core::mem::size_of::<usize>() } }
+impl TypeHash for Handle { fn type_hash(h: &mut impl core::hash::Hasher) { use core::hash::Hash; "Handle".hash(h); } }
+impl AlignHash for Handle { fn align_hash(h: &mut impl core::hash::Hasher, off: &mut usize) { use core::hash::Hash; core::mem::size_of::<Self>().hash(h); *off += core::mem::size_of::<Self>(); } }
+impl SerializeInner for Handle {
+    type SerType = Self;
+    const IS_ZERO_COPY: bool = false;
+    const ZERO_COPY_MISMATCH: bool = false;
+    fn _serialize_inner(&self, backend: &mut impl ser::WriteWithNames) -> ser::Result<()> { epserde::ser::helpers::serialize_zero(backend, self) }
+}
+impl DeserializeInner for Handle {
+    type DeserType<'a> = &'a Handle;
+    fn _deserialize_full_inner(backend: &mut impl ReadWithPos) -> deser::Result<Self> { epserde::deser::helpers::deserialize_full_zero::<Self>(backend) }
+    fn _deserialize_eps_inner<'a>(backend: &mut SliceWithPos<'a>) -> deser::Result<Self::DeserType<'a>> { epserde::deser::helpers::deserialize_eps_zero::<Self>(backend) }
+}
+"#;
+
+/// (definitions, type, value, description) using `Handle`
+const HANDLE_USES: &[(&str, &str, &str, &str)] = &[
+    ("", "Handle", "Handle(\"leak\")", "hand-declared zero-copy pointer holder, standalone"),
+    ("", "Vec<Handle>", "vec![Handle(\"a\"), Handle(\"b\")]", "vector of hand-declared pointer holders"),
+    ("", "Box<[Handle]>", "vec![Handle(\"a\")].into_boxed_slice()", "boxed slice of hand-declared pointer holders"),
+    ("", "[Handle; 2]", "[Handle(\"a\"), Handle(\"b\")]", "array of hand-declared pointer holders"),
+    ("", "Vec<[Handle; 2]>", "vec![[Handle(\"a\"), Handle(\"b\")]]", "vector of arrays of hand-declared pointer holders"),
+    ("#[derive(Epserde, Clone, Copy, Debug)]\n#[repr(C)]\n#[zero_copy]\npub struct T { pub n: u32, pub h: Handle }\n", "T", "T { n: 1, h: Handle(\"a\") }", "derived zero-copy struct with a hand-declared pointer-holder field"),
+    ("#[derive(Epserde, Clone, Copy, Debug)]\n#[repr(C)]\n#[zero_copy]\npub struct T { pub hs: [Handle; 2], pub n: u8 }\n", "T", "T { hs: [Handle(\"a\"), Handle(\"b\")], n: 1 }", "derived zero-copy struct with an array-of-pointer-holders field"),
+    ("#[derive(Epserde, Clone, Copy, Debug)]\n#[repr(C)]\n#[zero_copy]\npub enum T { A, B(Handle), C { h: Handle, n: u8 } }\n", "T", "T::C { h: Handle(\"a\"), n: 2 }", "derived zero-copy enum with a pointer holder in a struct-like variant"),
+    ("#[derive(Epserde, Clone, Copy, Debug)]\n#[repr(C)]\n#[zero_copy]\npub enum T { A, B(Handle), C { h: Handle, n: u8 } }\n", "T", "T::B(Handle(\"a\"))", "derived zero-copy enum with a pointer holder in a tuple variant"),
+    ("#[derive(Epserde, Clone, Copy, Debug)]\n#[repr(C)]\n#[zero_copy]\npub struct Z { pub h: Handle }\n#[derive(Epserde, Clone, Debug)]\npub struct T { pub v: Vec<Z>, pub n: u8 }\n", "T", "T { v: vec![Z { h: Handle(\"a\") }], n: 1 }", "deep struct holding a vector of zero-copy structs with a pointer holder"),
+    ("#[derive(Epserde, Clone, Debug)]\npub struct T<A> { pub a: A, pub n: u8 }\n", "T<Vec<[Handle; 3]>>", "T { a: vec![[Handle(\"a\"); 3]], n: 1 }", "generic deep struct instantiated with a vector of arrays of pointer holders"),
+];
+
 struct Def {
     source: String,
     value: String,
@@ -191,6 +230,13 @@ pub fn run(opts: &Opts, pi: &PropInfo) -> i32 {
     if let Some(srcx) = &replay_src {
         probes.push(Probe { name: "c17_bad_replay".into(), source: srcx.clone() });
         meta.push(("c17_bad_replay".into(), false, "replayed definition".into()));
+    }
+    if replay_src.is_none() {
+        for (k, (defs, ty, val, what)) in HANDLE_USES.iter().enumerate() {
+            let d = Def { source: format!("{}{}", HANDLE, defs), value: val.to_string(), ty: ty.to_string() };
+            probes.push(Probe { name: format!("c17_bad_handle_{}", k), source: probe_source(&d, false) });
+            meta.push((format!("c17_bad_handle_{}", k), false, what.to_string()));
+        }
     }
     for i in 0..(if replay_src.is_some() { 0 } else { n_pairs }) {
         // the mutation classes are cycled so that each one is exercised in every run
